@@ -77,7 +77,8 @@ TResp ==
           /\ \A i \in 1..Len(wresp'.flags) : Bit0(Cur.flags[i]) = wresp'.flags[i]
   /\ IF wresp'.err = None THEN Cur.err.code = 0
      ELSE /\ Cur.err.code = wresp'.err.code
-          /\ (neg.ok => Cur.err.msg = wresp'.err.msg /\ Cur.err.details = Details(wresp'.err.ndet))
+          /\ (neg.ok /\ wresp'.err.msg # "library" => Cur.err.msg = wresp'.err.msg)
+          /\ (neg.ok => Cur.err.details = Details(wresp'.err.ndet))
   \* carriers: with at least one message on the wire headers are headers and trailers are trailers
   /\ IF Len(wresp'.ids) >= 1 /\ wresp'.err = None
      THEN Visible(wresp'.hdr, Cur.hdr) /\ Visible(wresp'.trl, Cur.trl)
@@ -96,7 +97,7 @@ TCsaw ==
      THEN IF csaw'.carried >= 1 THEN Visible(csaw'.hdr, Cur.hdr) /\ Visible(csaw'.trl, Cur.trl)
           ELSE VisibleIn2(csaw'.hdr, Cur.hdr, Cur.trl) /\ VisibleIn2(csaw'.trl, Cur.hdr, Cur.trl)
      ELSE /\ Cur.err.code = csaw'.code
-          /\ (neg.ok => /\ Cur.err.msg = csaw'.msg
+          /\ (neg.ok => /\ (csaw'.msg # "library" => Cur.err.msg = csaw'.msg)
                         /\ Cur.err.details = Details(csaw'.ndet)
                         /\ Visible(csaw'.meta, Cur.err.meta))
 
